@@ -31,7 +31,7 @@ func init() {
 	c := eng.Register(&eng.Check{
 		ID:    "C09",
 		Title: "A parsed formula can be shared across goroutines",
-		Rule: "leg A (deciding): 2- and 3-thread scenarios built from the bodies {evaluate a shared tree with an own runner and data map, collect the fields of a shared tree, parse another text, parse a malformed text and format its diagnostic} over six shared trees; the package is compiled from an overlay that yields to a cooperative scheduler at every function entry and before every statement touching a package-level variable; every schedule with at most b preemptions is executed (iterative preemption bounding, depth-first over choice prefixes) and every thread's observation must equal its sequential observation, the shared trees' dumps must be unchanged; a control scenario sharing one runner must show several outcomes (vacuity guard); " +
+		Rule: "leg A (deciding): 2- and 3-thread scenarios built from the bodies {evaluate a shared tree with an own runner and data map, collect the fields of a shared tree, parse another text, parse a malformed text and format its diagnostic} over twenty shared trees (incl. a refused call next to ordinary calls and the two logarithms of the same wide arguments); the package is compiled from an overlay that yields to a cooperative scheduler at every function entry and before every statement touching a package-level variable; every schedule with at most b preemptions is executed (iterative preemption bounding, depth-first over choice prefixes) and every thread's observation must equal its sequential observation, the shared trees' dumps must be unchanged; a control scenario sharing one runner must show several outcomes (vacuity guard); " +
 			"leg B (complement, sampled): the same bodies free-running under the race detector with G in {2,4,8,16} and several GOMAXPROCS; distinct = distinct observation vectors over all schedules",
 		TrustedBase: []string{"internal/sched (cooperative scheduler, preemption-bounded DFS)", "cmd/vinstr (yield-point injection through go build -overlay)", "Go race detector (leg B)"},
 		Assumptions: []string{"interleavings are explored at injected points only; unsynchronised accesses between points are the race detector's job (leg B), which samples schedules", "state inside the decimal and regexp libraries is not scheduled", "a thread that blocks on a primitive the scheduler does not model makes that schedule count as stalled (reported, never a violation)"},
@@ -88,6 +88,12 @@ var C09Trees = []string{
 	"[z ? ['p', 'q'] : ['r'], ['x', \"y\"], [null]]",
 	// a long list whose first element binds a local that every later element reads (thread's own data map)
 	"[$a = 7" + strings.Repeat(", $a", 32) + "]",
+	// (17) a host function whose results are not (value, error): the call is refused - after the call
+	// machinery has done part of its work - next to ordinary calls (data variant 4)
+	"f(2,'x') + badres()",
+	// (18, 19) the two logarithms of the same wide arguments, the slowest computations a formula can ask for
+	"[ln(3e100), ln(7e80), ln(3e100)]",
+	"[log(3e100), log(7e80), log(3e100)]",
 }
 
 // c09SharedCtx: one cancellable context handed to every evaluation (contexts are made to be shared)
@@ -170,6 +176,10 @@ func C09Body(name string) func() string {
 		switch {
 		case variant == 3:
 			r.SetThis(map[string]interface{}{}) // the thread's own, empty data map
+		case variant == 4:
+			d := c08Data()
+			d["badres"] = func() (int, bool) { return 1, true }
+			r.SetThis(d)
 		case variant >= 0:
 			r.SetThis(c08With(C09Variants[variant]...)())
 		default:
@@ -342,6 +352,7 @@ func C09Scenarios(quick bool) [][]string {
 	sc = append(sc, []string{"eval:12:0", "eval:12:1"}, []string{"eval2:12:1", "eval:12:0"}, []string{"eval:12:0", "eval:2", "eval:12:1"})
 	sc = append(sc, []string{"eval:13:3", "eval:13:3"}, []string{"eval2:13:3", "eval:13:3"}, []string{"eval:13:3", "eval:3"})
 	sc = append(sc, []string{"eval:16:3", "eval:16:3"})
+	sc = append(sc, []string{"eval2:17:4", "eval:4"}, []string{"eval:17:4", "eval:4", "eval:4"}, []string{"eval:18", "eval:19"}, []string{"eval2:18", "eval:19"}, []string{"eval:19", "eval:19"})
 	if !quick {
 		sc = append(sc, []string{"eval2:16:3", "fields:16"})
 	}
